@@ -201,22 +201,24 @@ instance (pre req : Byte) (vs : List Byte) : Decidable (wkupOwn pre req vs) := b
     exact isFalse (fun h => h.elim (fun h => by simp at h) (fun h => h.elim (fun h => by simp at h)
       (fun h => h.elim (fun ⟨_, h1, _⟩ => by simp at h1) (fun ⟨_, h1, _⟩ => by simp at h1))))
 
-/-- C08 for one `write()`: `accs` is the decoded journal, `pre` the device before the call -/
-def C08 (q : Request) (pre : Regs) (accs : List Acc) : Prop :=
-  let ws := okWrites accs
-  let tgt := DS.Request.spec q pre
-  hasRead accs = false ∧
+/-- C08 for one `write()` of the builder owning `block`, requesting `tgt` on it: `ws` are the
+    acknowledged register writes, `pre` the device before the call -/
+def C08W (block : List Nat) (tgt pre : Regs) (ws : List W) : Prop :=
   -- own block (except the wake-up builder's enable register): at most one write, only of the
   -- requested value, only if the device does not already hold it
-  (∀ a ∈ q.block, (a = 0x2F ∨ a = 0x1F ∨ a = 0x20) ∨
+  (∀ a ∈ block, a = 0x2F ∨
       (valuesAt ws a = [] ∨ (valuesAt ws a = [tgt a] ∧ pre a ≠ tgt a))) ∧
-  -- interrupt-enable builder: its block *is* 0x1F / 0x20, same rule
-  (∀ a ∈ q.block, (a = 0x1F ∨ a = 0x20) →
-      (valuesAt ws a = [] ∨ (valuesAt ws a = [tgt a] ∧ pre a ≠ tgt a))) ∧
-  (0x2F ∈ q.block → wkupOwn (pre 0x2F) (tgt 0x2F) (valuesAt ws 0x2F)) ∧
+  (0x2F ∈ block → wkupOwn (pre 0x2F) (tgt 0x2F) (valuesAt ws 0x2F)) ∧
   -- outside the block: only the enable registers, only toggled
-  (∀ w ∈ ws, w.addr ∈ q.block ∨ w.addr ∈ enableRegs) ∧
-  (∀ a ∈ enableRegs, a ∉ q.block → toggles (pre a) (valuesAt ws a))
+  (∀ w ∈ ws, w.addr ∈ block ∨ w.addr ∈ enableRegs) ∧
+  (∀ a ∈ enableRegs, a ∉ block → toggles (pre a) (valuesAt ws a))
+
+instance (block : List Nat) (tgt pre : Regs) (ws : List W) : Decidable (C08W block tgt pre ws) := by
+  unfold C08W; infer_instance
+
+/-- C08 for one `write()`: `accs` is the decoded journal, `pre` the device before the call -/
+def C08 (q : Request) (pre : Regs) (accs : List Acc) : Prop :=
+  hasRead accs = false ∧ C08W q.block (DS.Request.spec q pre) pre (okWrites accs)
 
 instance (q : Request) (pre : Regs) (accs : List Acc) : Decidable (C08 q pre accs) := by
   unfold C08; infer_instance
